@@ -193,3 +193,22 @@ Proof.
     split; [exact Z3|]. split; [rewrite Z1; unfold cpend; rewrite Z2; reflexivity|]. split; [exact Hw1|]. split; [exact Hd1|].
     split; [exact Hcfg|]. rewrite Z1. cbn [firstn]. rewrite app_nil_r. exact Eb.
 Qed.
+
+(* read_until_prompt() with the prompt set on the channel *)
+Theorem rup_timed_live_chan tmo c S k :
+  wfc c -> deaths c = [] -> match tmo with Some T => (0 < T)%Z | None => True end ->
+  cpend c = S -> S <> [] -> only_tail (prompt_split (prompt c)) S k ->
+  ready (deadline (now (io c)) tmo) (pend (io c)) = length S ->
+  exists c', read_until_prompt None tmo c = (Ret (text (firstn k S)), c') /\
+             pend (io c') = [] /\ same_cfg c c' /\ deaths c' = [] /\ wfc c' /\ in_time (now (io c)) tmo c' /\
+             now (io c') = last_time c.
+Proof.
+  intros Hw Hd HT HS Hne Hot Hr. unfold read_until_prompt.
+  assert (Hp : pend (io c) <> []).
+  { intro X. unfold cpend in HS. rewrite X in HS. unfold cat in HS; simpl in HS. congruence. }
+  assert (Ht : in_time (now (io c)) tmo c) by (unfold in_time; destruct tmo; [lia | exact I]).
+  assert (Hr' : ready (deadline (now (io c)) tmo) (pend (io c)) = length (cpend c)) by (rewrite Hr, HS; reflexivity).
+  destruct (rup_loop_timed_live (fuel_of c) (now (io c)) tmo [] c S k Hw Hd Ht Hp HS Hot Hr' (fuel_of_enough c))
+    as (c' & R1 & R2 & R3 & R4 & R5 & R6 & R7).
+  exists c'. auto 10.
+Qed.
